@@ -261,9 +261,7 @@ def h_identify(methodname, m):
     from regions import Regions
     from regions.core.core import Region
     from regions.core.registry import RegionsRegistry, IORegistryError
-    if not m.sym:
-        return
-    path = symx.SymStr('path')
+    path = m.string('path')
     low = path.lower()
     ids = {}
     for fmt, fn in (('ds9', 'is_ds9'), ('crtf', 'is_crtf'), ('fits', 'is_fits')):
